@@ -24,6 +24,10 @@ CHECKS = {
   "invariant hook on every operation + differential runs at every budget cut point; runaway shapes with hook-observed peaks; exhaustive two-byte start-check prefixes",
   "For each program (pinned and generated, up to 3000 operations) the unbudgeted run is traced through the step hook, then the program is re-run in a fresh interpreter for every budget N in 1..ops+2: the error must be ErrExecutionLimitExceeded exactly when N < ops, the counter exactly N+1 at return and never above N+1 at any hook call, the per-step trace a prefix of the unbudgeted trace, and with a sufficient budget the error, counter and full state digest equal the unbudgeted run's. 36 runaway shapes (pushing loops, recursion through names/exec/if/for/forall/loop/repeat, self-stored procedures, exec chains, begin loops, failing and looping error handlers, oversized array/string/dict requests) must end with the prescribed error name with hook-observed peaks below generous caps. All 65536 two-byte prefixes and short inputs are run with CheckStart set.",
   "Trusted: the verif-tagged hook reports every counter value before the budget comparison. Caps are generous (10^4/10^3/10^3), not the implementation's constants. Wall-clock is never a verdict; a worker without any hook/reader progress for the watchdog window is re-run alone before a hang is reported."),
+ "C04": ("exploration", "DESIGN.md 11/C04",
+  "reference-model monitor where the generator is the model: object sequence x independent spelling x independent separator, compared with the procedure the library builds; DSC list compared; serialisations read back",
+  "The generator draws an object sequence, then independently a spelling for each object (number bases and exponent forms, per-byte escape choice, balanced raw parentheses, continuations, raw CR/LF/CRLF, hex and ASCII85 strings with interior white space, odd digit counts and every tail length) and a separator for each gap (every white-space character, CRLF, comments ended by LF, CR, CRLF or FF, or nothing where delimiters allow), with DSC lines and %%+ continuations at column 0. `{ tokens }` is executed and the pushed procedure is compared element by element (type and value, nested) with the drawn objects, Interpreter.DSC with the drawn (key, value) list. All 256 byte values are run through each string flavour, every near-number and radix base is enumerated, and String.PS()/Name.PS() outputs are read back.",
+  "Trusted: ref.ParseNumber (PLRM 3.2.2) for classifying bare tokens; strconv.ParseFloat as correctly rounded decimal conversion. 27 control bytes that the library treats as white space (the PLRM does not) are carried as known findings keyed by the exact input and kept out of the random generator."),
 }
 
 NOT_CLAIMED = {}
